@@ -149,7 +149,7 @@ func props() map[string]Prop {
 				{Name: "endpoint", Module: "godev", Pkg: "cmd/telemetrygodev", Harness: "godev_server", Run: "^TestVerifC12$", Timeout: 30 * time.Minute},
 				{Name: "race", Module: "godev", Pkg: "cmd/telemetrygodev", Harness: "godev_server", Run: "^TestVerifC12$", Race: true, Timeout: 30 * time.Minute, Env: []string{"VERIF_SCALE=0.1"}},
 			},
-			Assume: []string{"a valid report followed by non-blank trailing bytes is a don't-care (the statement does not say)", "the FS storage backend stands for the bucket"},
+			Assume: []string{"the FS storage backend stands for the bucket"},
 		},
 		{
 			ID: "C13", Level: "exploration",
